@@ -162,6 +162,8 @@ def execute_sqlite(statements, connection=None, probe=None):
     rows = cur.fetchall()
     cols = [d[0] for d in cur.description]
     return Outcome('rows', columns=cols, rows=[list(r) for r in rows], statements=statements)
+  except MemoryError:
+    return Outcome('capped', stage='execute', message='MemoryError under the address-space limit while executing (case discarded)', statements=statements)
   except Exception as e:
     if ticks[0] > SQL_TICK_LIMIT:
       return Outcome('capped', stage='execute', message='query exceeded the step budget (inconclusive case)', statements=statements)
